@@ -70,6 +70,9 @@ type (
 		parserMu sync.Mutex
 		parser   parser.Parser
 
+		// Runs the handlers of the received packets in order, per namespace.
+		dispatcher packetDispatcher
+
 		noReconnection       bool
 		reconnectionAttempts uint32
 		reconnectionDelay    time.Duration
@@ -229,7 +232,18 @@ func (m *Manager) onParserFinish(header *parser.PacketHeader, eventName string, 
 	if !ok {
 		return
 	}
-	go socket.onPacket(header, eventName, decode)
+
+	switch header.Type {
+	case parser.PacketTypeAck, parser.PacketTypeBinaryAck:
+		// An acknowledgement does not wait for the handlers of earlier packets:
+		// one of them might be waiting for this very acknowledgement.
+		go socket.onPacket(header, eventName, decode)
+	default:
+		// Everything else is handed over in the order it was received.
+		m.dispatcher.add(header.Namespace, func() {
+			socket.onPacket(header, eventName, decode)
+		})
+	}
 }
 
 func (m *Manager) packet(packets ...*eioparser.Packet) {
